@@ -11,6 +11,7 @@ import (
 	"os"
 	"sort"
 	"strings"
+	"sync/atomic"
 	"time"
 
 	"github.com/bitcoin-sv/block-headers-service/verifharness/lib"
@@ -78,6 +79,13 @@ func runScenario(name string, s *scn, oracle func(*rig, *scnResult)) *scnResult 
 		res.TipHash = t.Hash.String()
 	}
 	oracle(r, res)
+	if os.Getenv("VERIF_C06_TRACE") != "" {
+		fmt.Fprintf(os.Stderr, "--- %s\n%s\n", name, strings.Join(s.Ops(), "\n"))
+		for _, t := range r.traceStrings() {
+			fmt.Fprintln(os.Stderr, "   ", t)
+		}
+		fmt.Fprintf(os.Stderr, "    tip=%s failures=%d info=%v notes=%v\n", r.tree.name(res.TipHash), len(res.Failures), res.Info, r.notes)
+	}
 	return res
 }
 
@@ -91,7 +99,9 @@ func (r *rig) finals() []nodeFinal {
 		n.wmu.Lock()
 		connected := n.conn != nil
 		n.wmu.Unlock()
-		f.Reachable = connected && !n.isClosed() && !stalled
+		// reachable: the node neither went away nor fell silent by itself (a connection the SERVICE closed does not
+		// make a conformant node unreachable: it offered its chain and was thrown out)
+		f.Reachable = connected && atomic.LoadInt32(&n.selfClosed) == 0 && !stalled
 		if f.TipIdx >= 0 {
 			f.Cum = r.tree.cum[f.TipIdx]
 		} else {
@@ -164,7 +174,13 @@ func oracleC06(r *rig, res *scnResult) {
 	}
 	if ok && !heavier {
 		// the honest peer's best chain is stored, all of it on the longest chain
-		for _, idx := range r.tree.pathTo(best.TipIdx) {
+		chainTip := best.TipIdx
+		for _, f := range fs {
+			if f.Honest && f.Reachable && f.TipIdx >= 0 && r.tree.disp[f.TipIdx] == res.TipHash {
+				chainTip = f.TipIdx
+			}
+		}
+		for _, idx := range r.tree.pathTo(chainTip) {
 			row, found := t.by[r.tree.disp[idx]]
 			if !found || row.State != "LONGEST_CHAIN" {
 				ok = false
@@ -226,26 +242,70 @@ func classifyC06(r *rig, res *scnResult, fs []nodeFinal, best *nodeFinal, t *tre
 		// F4b: the peer that holds the best chain announced a block by inv after its last request
 		// getheaders(locator(tip), 0) had been answered; the follow-up request is identical and is dropped by
 		// PushGetHeadersMsg's duplicate filter, so nothing was requested after the inv.
-		tipWire, _ := hexToWire(res.TipHash)
 		for _, f := range fs {
-			if !f.Honest || !f.Reachable || f.Cum.Cmp(best.Cum) != 0 {
+			if !f.Honest || !f.Reachable {
 				continue
 			}
-			lastGH, lastInv, lastGHidx := -1, -1, -1
+			// last request received by the node, its (empty) answer, and an inv of a still unknown block afterwards
+			lastGH := -1
 			for k, e := range f.Hist {
 				if !e.Sent && e.Kind == "getheaders" {
 					lastGH = k
-					lastGHidx = k
-				}
-				if e.Sent && e.Kind == "inv" {
-					lastInv = k
 				}
 			}
-			if lastInv > lastGH && lastGHidx >= 0 {
-				g := f.Hist[lastGHidx].GH
-				if len(g.Loc) > 0 && g.Loc[0] == tipWire && g.Stop == zero {
-					return "c06-announcement-dropped-by-duplicate-getheaders-filter",
-						fmt.Sprintf("node %d announced new blocks by inv; the request getheaders(locator(tip), 0) they call for equals the previous, already answered request to that peer and was filtered as a back-to-back duplicate: nothing was requested", f.ID)
+			if lastGH < 0 || f.Hist[lastGH].GH.Stop != zero || len(f.Hist[lastGH].GH.Loc) == 0 {
+				continue
+			}
+			answeredEmpty, invUnknown := false, false
+			for k := lastGH + 1; k < len(f.Hist); k++ {
+				e := f.Hist[k]
+				if e.Sent && e.Kind == "headers" && len(e.Idx) == 0 {
+					answeredEmpty = true
+				}
+				if e.Sent && e.Kind == "inv" && answeredEmpty && len(e.Idx) > 0 {
+					if _, have := t.by[r.tree.disp[e.Idx[len(e.Idx)-1]]]; !have {
+						invUnknown = true
+					}
+				}
+			}
+			if answeredEmpty && invUnknown {
+				return "c06-announcement-dropped-by-duplicate-getheaders-filter",
+					fmt.Sprintf("node %d announced new blocks by inv after its last request getheaders(locator(tip), 0) had been answered (empty); the request the inv calls for is identical and was filtered as a back-to-back duplicate by PushGetHeadersMsg: nothing was requested from the node after the inv", f.ID)
+			}
+		}
+	}
+	if s.Engine == "legacy" {
+		// F4c: the service has every block of its sync peer, another connected candidate advertises a heavier chain,
+		// and the sync peer is kept (startSync only runs without a sync peer; handleCheckSyncPeer returns when
+		// topBlock == tip height; invs of other peers are ignored while below the last checkpoint).
+		st := r.sm.VerifSnapshot()
+		if st.HasSyncPeer {
+			for i, lp := range r.lpeers {
+				if lp == nil || lp.p.ID() != st.SyncPeerID || i == best.ID {
+					continue
+				}
+				spTip := fs[i].TipIdx
+				if tipHeightOf(t, res.TipHash) == int64(heightOf(r.tree, spTip)) && fs[i].Cum.Cmp(best.Cum) < 0 {
+					return "c06-exhausted-sync-peer-kept-while-better-candidate-connected",
+						fmt.Sprintf("the service holds all %d blocks of its sync peer (node %d) and keeps it; node %d, connected and advertising height %d, is never asked", heightOf(r.tree, spTip), i, best.ID, heightOf(r.tree, best.TipIdx))
+				}
+			}
+		}
+	}
+	if s.Engine == "legacy" {
+		// F4c: the service has every block of its sync peer, another connected candidate advertises a heavier chain,
+		// and the sync peer is kept (startSync only runs without a sync peer; handleCheckSyncPeer returns when
+		// topBlock == tip height; invs of other peers are ignored while below the last checkpoint).
+		st := r.sm.VerifSnapshot()
+		if st.HasSyncPeer {
+			for i, lp := range r.lpeers {
+				if lp == nil || lp.p.ID() != st.SyncPeerID || i == best.ID {
+					continue
+				}
+				spTip := fs[i].TipIdx
+				if tipHeightOf(t, res.TipHash) == int64(heightOf(r.tree, spTip)) && fs[i].Cum.Cmp(best.Cum) < 0 {
+					return "c06-exhausted-sync-peer-kept-while-better-candidate-connected",
+						fmt.Sprintf("the service holds all %d blocks of its sync peer (node %d) and keeps it; node %d, connected and advertising height %d, is never asked", heightOf(r.tree, spTip), i, best.ID, heightOf(r.tree, best.TipIdx))
 				}
 			}
 		}
@@ -443,7 +503,15 @@ func genLinear(rng *rand.Rand, o genOpts, engine string) *scn {
 		}
 		s.Steps = append(s.Steps, scnStep{Kind: "run"})
 	}
+	timePasses(s)
 	return s
+}
+
+// timePasses: more than three minutes go by (the sync-peer watchdog gets its chance), then whatever it started runs.
+func timePasses(s *scn) {
+	if s.Engine == "legacy" {
+		s.Steps = append(s.Steps, scnStep{Kind: "tick", N: 200}, scnStep{Kind: "run"})
+	}
 }
 
 // genFork: nodes on different branches of one tree; reply cap 2000; the service may start on a fork.
@@ -466,8 +534,10 @@ func genFork(rng *rand.Rand, o genOpts, engine string) *scn {
 	for i := range s.Bits {
 		s.Bits[i] = defaultBits
 	}
-	if m == L-f { // equal length: make the main chain strictly heavier (no ties between offered tips)
-		s.Bits[L-1] = bitsSmall[2]
+	// no ties between offered tips, before or after the announcements: the main chain gets one heavier block
+	// whenever the side branch has the length of the main chain at some point
+	if m >= L-f && m <= L+future-f {
+		s.Bits[f] = bitsSmall[2]
 	}
 	if rng.Intn(4) == 0 {
 		s.Sched = "free"
@@ -482,7 +552,7 @@ func genFork(rng *rand.Rand, o genOpts, engine string) *scn {
 		s.Cps = []int{rng.Intn(f)}
 	}
 	sidePath := append(seq(0, f), side...)
-	mainHeavier := L-f > m || m == L-f
+	mainHeavier := L-f >= m
 	switch rng.Intn(3) {
 	case 1:
 		s.Init = seq(0, 1+rng.Intn(f))
@@ -524,6 +594,7 @@ func genFork(rng *rand.Rand, o genOpts, engine string) *scn {
 		}
 	}
 	s.Steps = append(s.Steps, scnStep{Kind: "run"})
+	timePasses(s)
 	return s
 }
 
